@@ -692,6 +692,23 @@ fn parse_ixdtf(source: &str, variant: ParseVariant) -> TemporalResult<IxdtfParse
             .with_message("Duplicate calendar value with critical flag found."));
     }
 
+    // The Temporal grammar admits at most nine fractional digits, also where the time or the
+    // offset is not used by the type being parsed.
+    let time_fraction = record.time.and_then(|time| time.fraction);
+    let offset_fraction = match record.offset {
+        Some(UtcOffsetRecordOrZ::Offset(offset)) => offset.fraction,
+        _ => None,
+    };
+    if [time_fraction, offset_fraction]
+        .iter()
+        .flatten()
+        .any(|fraction| fraction.to_nanoseconds().is_none())
+    {
+        return Err(
+            TemporalError::range().with_message("fractional seconds exceeds nine digits.")
+        );
+    }
+
     // Validate that the DateRecord exists.
     if variant != ParseVariant::Time && record.date.is_none() {
         return Err(
